@@ -1,6 +1,7 @@
 """C03: hit counts, percentages and oktas in CeiloChunk._calculate_cloud_amount / max_hits_per_layer."""
 from __future__ import annotations
 
+from sa.anchors import is_helper
 from sa import terms as T
 from sa.core import AnalysisError
 from sa.rules.tablemodel import table_history, sets_of, is_cast, WHICH, DATA, SELF, id_col, member_mask
@@ -108,7 +109,7 @@ def max_hits(ctx, rule='C03-R1'):
     if m is None:
         raise AnalysisError(rule, 'anchor property vanished: max_hits_per_layer')
     ctx.saw(m)
-    ex = Executor(p)
+    ex = Executor(p, inline=lambda q, d: is_helper(p, q), max_depth=5)
     s = ex.run(m)
     ok, why = measurement_count(s.ret, None)
     ctx.check(ok, rule, m.qname, m.node.name, m.loc(),
@@ -170,7 +171,7 @@ def okta_chain(ctx, rule='C03-R2'):
             raise AnalysisError(rule, 'n_hits / perc stores not unique')
         n = nh[0].value
         k = p.klass('ampycloud.data.CeiloChunk', rule)
-        mh = Executor(p).run(p.find_method(k, 'max_hits_per_layer')).ret
+        mh = Executor(p, inline=lambda q, d: is_helper(p, q), max_depth=5).run(p.find_method(k, 'max_hits_per_layer')).ret
         ctx.check(len(ok_sets) == 3, rule, m.qname, m.node.name, m.loc(),
                   f"metarize('{which}'): the okta cell is assigned on {len(ok_sets)} branches (0 / 8 / binned expected)",
                   instance=f"metarize('{which}'): three okta branches")
